@@ -12,6 +12,7 @@ LEVEL_NOTE = ("the fold of the per-step conformance into equality of whole trees
               "configurations; assumes DecoderOK and sorted()")
 DESIGN_REF = "DESIGN.md 5.3"
 FUNCTIONS = ENGINE_FUNCS + ["multidecoder.multidecoder.Multidecoder.__init__"]
+EXCLUDE_CLAUSES = LOWER_VIEW
 TRUSTED = ENGINE_TRUSTED
 
 
